@@ -116,7 +116,7 @@ theorem recovery_open_is_stable {C : Type} (join : C → C → C) (bot : C) (L :
     the version PUT unconditionally (an acknowledged commit is one whose requests up to and
     including the version PUT were all served — the hypothesis of `acked_is_new`), in this order -/
 theorem ack_facts :
-    F.commitChecksErrors = true ∧ F.commitRemembersFailure = true ∧
+    F.commitChecksErrors = true ∧ F.commitRemembersFailure = true ∧ F.failedCommitReopens = true ∧
     F.commitKeepsSnapshotOnError = true ∧ F.rollbackRestoresSnapshot = true ∧
     F.commitOrder = ["flushNodes", "putRoot", "retireParents"] := by
   decide
